@@ -221,7 +221,9 @@ func init() {
 		defer restore()
 		sizes := []uint64{0, 1, 1023, 1024, 7 << 20, 1536 << 30, 1 << 60, ^uint64(0), 1000000, 0}
 		if idx >= 20 { // the very first calls of the process arrive from 16 goroutines at once
+			var ready int32
 			c.Parallel("cold", 16, func(w *rt.W) {
+				coldBarrier(&ready, 16)
 				first(sizes[w.Shard%len(sizes)])
 				for k := 0; k < 3; k++ {
 					c04Case(w, sizes[(w.Shard+k)%len(sizes)], cfg, true)
@@ -296,7 +298,7 @@ func runC04(c *rt.Ctx) {
 			}
 		})
 	}
-	coldStart(c, "C04", 60)
+	coldStart(c, "C04", 140)
 	c.Exhaustive("all sizes below 2^20 x 8 switch combinations")
 	c.Require("stratified-set-under-switches", 8)
 	c.Require("container-roundtrip", 100000)
